@@ -617,7 +617,7 @@ def encode_hybrid(meta, obs, fresh):
 # ------------------------------------------------------------------------------------------
 # scenario generators
 # ------------------------------------------------------------------------------------------
-def gen_spec(rng, k, ndata, leaf=None, dims=None):
+def gen_spec(rng, k, ndata, leaf=None, dims=None, npar_fixed=None):
     """k blocks; every block gets a prior whose location may depend on other blocks; ndata data factors.
     leaf = index of a block nobody depends on (so its conditional reduces to a plain Distribution)"""
     names = NAMES[:k]
@@ -630,7 +630,7 @@ def gen_spec(rng, k, ndata, leaf=None, dims=None):
                 "r": rng.choice([-2, -1, -0.5]), "l": dy(rng, -2, 2, 2)}
     for i in range(k):
         others = [j for j in range(k) if j != i and j != leaf]
-        npar = rng.choice([0, 1, 1, 2]) if others else 0
+        npar = (rng.choice([0, 1, 1, 2]) if npar_fixed is None else npar_fixed) if others else 0
         if i == leaf and others:
             npar = max(npar, 1)
         par = [(j, rng.choice([-2, -1, 1, 2])) for j in rng.sample(others, min(npar, len(others)))]
@@ -827,6 +827,18 @@ def gen_hybrid_lattice(rng, idx):
     return m
 
 
+def gen_two_parent(rng, iface, rep):
+    """4 blocks, every prior has exactly two parents: when another block is updated such a prior is conditioned on three names"""
+    if iface == "hybrid":
+        m = gen_hybrid(rng, ("hybrid/two-parent-priors/4blk/lik", 4, 1, ["KRec", "KMH", "KRec", "KMH"], [1, 1, 2, 1], [("sample", 3)]), rep)
+    else:
+        m = gen_legacy(rng, ("legacy/two-parent-priors/4blk/lik", 4, 1, ["LRec", "LMH", "LRec", "LRec"], [(2, 1), (1, 0)]))
+    spec = gen_spec(rng, 4, 1, dims=m["spec"]["dims"], npar_fixed=2)
+    spec["names"] = m["spec"]["names"]
+    m["spec"] = spec
+    return m
+
+
 HY_ORDER_CELLS = [
     ("hybrid/dens-order/rec+mh/3blk/lik2", 3, 2, ["KRec", "KMH", "KRec"], [1, 2, 1], [("sample", 3)]),
     ("hybrid/dens-order/mh+direct+nuts/4blk/lik2/warmup", 4, 2, ["KMH", "KNuts", "KRec", "KDirect"], [2, 1, 1, 1], [("warmup", 2, 0.5), ("sample", 2)]),
@@ -918,9 +930,11 @@ def run_legacy(meta):
     k = len(spec["names"])
     tr = Trace(spec, meta["probes"])
     target = build_joint(spec)
+    user_inits = {}
     for i, nm in enumerate(spec["names"]):
         if meta["inits"][i] is not None:
-            target.get_density(nm).init_point = np.asarray(meta["inits"][i], dtype=float)
+            user_inits[i] = np.array(meta["inits"][i], dtype=float)
+            target.get_density(nm).init_point = user_inits[i]
     scripts = [[it for sw in meta["script"] for it in sw[i]] for i in range(k)]
     holders = {"active": None}
 
@@ -993,6 +1007,7 @@ def run_legacy(meta):
                     obs["calls"].append({"raised": "ValueError"})
         obs["events"] = tr.events
         obs["leftover"] = [len(s) for s in scripts]
+        obs["inits_after"] = {str(i): [float(a) for a in v] for i, v in user_inits.items()}
     except Exception as e:      # noqa
         obs["error"] = "%s: %s" % (type(e).__name__, e)
         obs["events"] = tr.events
@@ -1065,6 +1080,9 @@ def oracle_legacy(meta, obs):
         have_samples, have_warm = exp_samples, new_sw[:nb]
     if pos != len(evs):
         return "%d transitions more than sweeps x blocks" % (len(evs) - pos), "Gibbs.step|visits"
+    for i_, v in (obs.get("inits_after") or {}).items():
+        if v != [float(a) for a in meta["inits"][int(i_)]]:
+            return ("the init_point array the user attached to %s was written to: %s -> %s" % (spec["names"][int(i_)], meta["inits"][int(i_)], v)), "Gibbs.step|user-initial-point-overwritten"
     return None, None
 
 
@@ -1870,6 +1888,9 @@ def run(ctx):
             cases += make_cases(gen_hybrid_fine(rng, cell, rep), fresh)
     for rep in range(reps2):
         cases += make_cases(gen_hybrid_partial(rng, rep), fresh)
+    for rep in range(reps2):
+        cases += make_cases(gen_two_parent(rng, "hybrid", rep), fresh)
+        cases += make_cases(gen_two_parent(rng, "legacy", rep), fresh)
     for idx in range(16):
         for rep in range(ctx.n(1, 6)):
             cases += make_cases(gen_hybrid_lattice(rng, idx), fresh)
